@@ -1,6 +1,7 @@
 (* C15 — topic entry counts equal appended minus consumed entries.  Pinned statements only. *)
 From W Require Import gen.Consts model.Base model.Engine model.EngineCfg spec.Queue
-  proofs.EngineWF proofs.EngineW proofs.EngineMain props.C01.
+  proofs.EngineWF proofs.EngineInv proofs.EngineW proofs.EngineMain proofs.EngineDisk proofs.EngineNorm proofs.EngineC06
+  proofs.EngineSince proofs.EngineSinceR props.C01.
 From Coq Require Import Lia.
 
 (* along every admissible restart-free history, every count query answers
@@ -20,8 +21,40 @@ Example c15_witness :
      REntries [out_of (e 0 10); out_of (e 1 0)]; RNum 1].
 Proof. vm_compute. reflexivity. Qed.
 
+(* the restart clause in AtLeastOnce{persist_every = n} mode (read_next consumers, any number of
+   earlier restarts outside block-id drift): right after a restart the count is appended minus the
+   PERSISTED position k, which lags behind the consumer's position l_del by at most n — so the count
+   is at most n above what the consumer truly had left (first conjunct), never below.  The ledger is
+   the one of c09_alo_redelivery_bound_with_restarts (props/C09.v). *)
+Theorem c15_alo_count_after_restart : forall (c : Cfg) (n : N) (be : backend) (ops : list op) (t : topic),
+  cfg_ok c -> n <= u32_max ->
+  forallb rn_only ops = true ->
+  outside_known (env_of c (ALO n) be) init (ops ++ [OReopen]) = true ->
+  N.of_nat (length (offered_all ops)) <= u64_max -> sum_len (offered_all ops) <= u64_max ->
+  let s := exec (env_of c (ALO n) be) init ops in
+  let l := lget (gm_ledger (env_of c (ALO n) be) init [] ops) (t_id t) in
+  length (unread c (nrm false (get_ts s (t_id t)))) = (length (l_app l) - l_del l)%nat /\
+  exists k, (k <= l_del l)%nat /\ N.of_nat (l_del l - k) <= n /\
+    snd (step (env_of c (ALO n) be) (reopen c s) (OCount t)) = RNum (N.of_nat (length (l_app l) - k)).
+Proof. intros c n be ops t. exact (count_after_restarts_alo c n be ops t). Qed.
+
+(* non-vacuity (the history of c09_witness_alo_bound_with_restarts): 6 appended, the consumer has 1
+   left (5 delivered since the roll-back), the restart answers 3 = 6 - 3 *)
+Example c15_alo_restart_witness :
+  let ops := [OAppend t1 (e 0 10); OAppend t1 (e 1 10); OAppend t1 (e 2 10); OAppend t1 (e 3 10); OAppend t1 (e 4 10);
+              ORead t1 true; ORead t1 true; ORead t1 true; ORead t1 true; OReopen; OCount t1;
+              ORead t1 true; OBatchRead t1 100000 false None; ORead t1 true; OAppend t1 (e 5 10)] in
+  let v := env_of small_cfg (ALO 3) Fd in
+  forallb rn_only ops = true /\ outside_known v init (ops ++ [OReopen]) = true /\
+  length (unread small_cfg (nrm false (get_ts (exec v init ops) 1))) = 1%nat /\
+  l_del (lget (gm_ledger v init [] ops) 1) = 5%nat /\
+  snd (step v (reopen small_cfg (exec v init ops)) (OCount t1)) = RNum 3.
+Proof. vm_compute. repeat split; reflexivity. Qed.
+
 Check c15_counts : forall (c : Cfg) (m : mode) (be : backend) (ops : list op),
   cfg_ok c -> Forall (op_ok c) ops ->
   N.of_nat (length (offered_all ops)) <= u64_max -> sum_len (offered_all ops) <= u64_max ->
   c15_ok (trace (env_of c m be) init ops) = true.
 Print Assumptions c15_counts.
+Check c15_alo_count_after_restart.
+Print Assumptions c15_alo_count_after_restart.
